@@ -69,7 +69,7 @@ func TestC09(t *testing.T) {
 		var mu sync.Mutex
 		injected := 0
 		kinds := map[string]int{}
-		var reqID graphsync.RequestID
+		reqID := graphsync.NewRequestID()
 		inject := func() {
 			mu.Lock()
 			defer mu.Unlock()
@@ -122,8 +122,7 @@ func TestC09(t *testing.T) {
 				inject()
 			}
 		}
-		req := w.Request(A, B.ID, c.DAG.Root, c.Sel)
-		reqID = req.ID
+		req := w.RequestWithID(reqID, A, B.ID, c.DAG.Root, c.Sel)
 		if positions[0] {
 			inject()
 		}
